@@ -787,6 +787,8 @@ def r4d_bitset_arithmetic_agrees(ctx):
                 if rv["k"] == "bin" and rv["op"] in ("Div", "Rem"):
                     t = sh(ne(fn.expr(rv["b"], 4)))
                     ops.append((rv["op"], int(t) if t.isdigit() else t[:12], b))
+                    num = sh(ne(fn.deep(rv["a"])))
+                    ops.append(("Num", num, b))
                 if rv["k"] == "bin" and rv["op"] in ("Shl", "ShlUnchecked"):
                     ops.append(("ShlTy", fn.locals[st["lhs"]["l"]]["ty"], b))
         for c in fn.calls():
@@ -811,6 +813,15 @@ def r4d_bitset_arithmetic_agrees(ctx):
         short = fid.split("::")[-1]
         for kind, v, b in ops:
             n += 1
+            if kind == "Num":
+                # what is divided is the index / the count itself (a shifted numerator moves every word boundary by one)
+                if re.match(r"^[A-Za-z_][A-Za-z0-9_.]*$", v) or re.match(r"^(Sub|sub)\(\w+(\.0)?,\w+\)$", v) and "local_start" in v:
+                    ctx.ok("bitset|%s|numerator" % short, fn.where(b), "divides `%s`" % v)
+                elif re.match(r"^Sub\(.*\blocal_start\b.*\)$", v) or re.match(r"^[a-z_]+\([A-Za-z_][A-Za-z0-9_.]*\)$", v):
+                    ctx.ok("bitset|%s|numerator" % short, fn.where(b), "divides `%s`" % v[:40])
+                else:
+                    ctx.bad("bitset|%s|numerator|%s" % (short, v[:24]), fn.where(b), "%s splits `%s` into (word, bit) instead of the index / count itself: every word boundary moves, so for counts that are an exact multiple of the word size the last word is not covered (a live variable among the last %d looks dead)" % (short, v[:40], want))
+                continue
             if kind == "ShlTy":
                 if v == word:
                     ctx.ok("bitset|%s|mask-type" % short, fn.where(b), "mask built in %s" % v)
